@@ -43,7 +43,47 @@ def check(case, stats):
         return check_fmt32(case, stats)
     if k == "rv":
         return check_rv(case, stats)
+    if k == "datatable":
+        return check_datatable(case, stats)
     return check_toy(case, stats)
+
+
+def check_datatable(case, stats):
+    """Memory table right after assembling a data segment, judged from the SOURCE (reference layout), not from the
+    simulator's own cell dictionary: every word that holds a byte of a .byte/.half/.word/.string declaration (the
+    string's terminating zero included) is listed, nothing outside the segment is, and every listed word shows the
+    reference value.  (.zero blocks are "reserved": whether their words are listed is left open.)"""
+    from architecture_simulator.simulation.riscv_simulation import RiscvSimulation
+    from vf.ref import asm
+    data = case["data"]
+    ast = {"data": data, "text": [{"ins": ["nop"], "inline": None}], "data_first": case["data_first"], "text_directive": True}
+    text, _ = asm.render(ast, case["tape"])
+    sim = RiscvSimulation()
+    try:
+        sim.load_program(text)
+        rows = sim.get_data_memory_entries()
+    except Exception as ex:
+        raise Violation("well-formed-program-rejected", case, f"{type(ex).__name__}: {ex!r}\n{text}")
+    base = sim.state.memory.get_address_range().start
+    image, variables, _end = asm.layout(data, base)
+    allw = {a & ~3 for a in image}
+    must = set()
+    for d in data:
+        if d["type"] != "zero":
+            a0 = variables[d["name"]][0]
+            n = len(d["string"]) + 1 if d["type"] == "string" else asm.ELEM[d["type"]] * len(d["values"])
+            must |= {(a0 + i) & ~3 for i in range(n)}
+    shown = {r[0][0]: r[1] for r in rows}
+    if not (must <= set(shown) <= allw):
+        raise Violation("memory-table-rows", case, f"declared words missing from the table: {sorted(hex(a) for a in must - set(shown))[:5]}; "
+                        f"rows outside the segment: {sorted(hex(a) for a in set(shown) - allw)[:5]}\n{text}")
+    for a, rep in shown.items():
+        v = sum(image.get(a + i, 0) << (8 * i) for i in range(4))
+        p = fmt.problem(rep, v, 32)
+        if p:
+            raise Violation("memory-table-value", case, f"word {a:#x} (reference layout {v:#x}): {p}\n{text}")
+    lone_nul = any(d["type"] == "string" and (variables[d["name"]][0] + len(d["string"])) % 4 == 0 for d in data)
+    stats.count(case, len(must) >= 2, {"datatable"} | ({"string-terminator-alone-in-its-word"} if lone_nul else set()), sample_tag="datatable")
 
 
 def check_fmt(case, stats):
@@ -275,6 +315,8 @@ def shards(tier, seed):
     for lo in range(0, 65536, 8192):
         items.append({"what": "fmt", "n": 16, "lo": lo, "hi": lo + 8192})
     items.append({"what": "stores"})
+    for i in range(1 if tier == "quick" else 8):
+        items.append({"what": "datatable", "n": 250 if tier == "quick" else 1500, "seed": seed * 1000 + 70 + i})
     if tier == "quick":
         items.append({"what": "fmt32", "n": 500, "seed": seed * 1000})
         for i in range(2):
@@ -293,6 +335,10 @@ def shards(tier, seed):
 def run_shard(item, stats):
     km = core.known_matcher(ID, globals().get("known_match"))
     w = item["what"]
+    if w == "datatable":
+        from vf.props import c05
+        return core.hyp_search(c05.layout_case().map(lambda c: {"kind": "datatable", "data": c["data"], "tape": c["tape"], "data_first": c["data_first"]}),
+                               check, stats, item["n"], item["seed"], km)
     if w == "fmt":
         core.run_cases([{"kind": "fmt", "n": item["n"], "lo": item["lo"], "hi": item["hi"]}], check, stats, km)
     elif w == "stores":
